@@ -121,6 +121,20 @@ fn enc_probe(ev: &mut Ev, enc: &'static Encoding, pre: &[u32], rest: &[u32], whi
     }
 }
 
+/// smallest length for which a query answers None (binary search; None if it never does), so that the lengths right at the
+/// overflow threshold of THIS formula in THIS state are sampled, not only lengths near usize::MAX / small divisors
+fn first_none(q: &dyn Fn(usize) -> Option<usize>) -> Option<usize> {
+    if q(usize::MAX).is_some() { return None; }
+    let (mut lo, mut hi) = (1usize << 20, usize::MAX);
+    if q(lo).is_none() { return Some(lo); }
+    while hi - lo > 1 { let mid = lo + (hi - lo) / 2; if q(mid).is_none() { hi = mid; } else { lo = mid; } }
+    Some(hi)
+}
+fn with_threshold(bigs: &[usize], q: &dyn Fn(usize) -> Option<usize>) -> Vec<usize> {
+    let mut ks = bigs.to_vec();
+    if let Some(t) = first_none(q) { for j in 0..96usize { ks.push(t.saturating_sub(j)); if let Some(x) = t.checked_add(j) { ks.push(x); } } }
+    ks.sort(); ks.dedup(); ks
+}
 fn overflow(ev: &mut Ev, ctx: &Ctx) {
     let bigs: Vec<usize> = { let mut v = vec![1usize << 32, 1 << 40]; for base in [usize::MAX, usize::MAX / 2, usize::MAX / 3, usize::MAX / 4, usize::MAX / 6, usize::MAX / 10, 1usize << 63, 1usize << 62] { for k in 0..48usize { v.push(base.saturating_sub(k)); if let Some(x) = base.checked_add(k) { v.push(x); } } } v.sort(); v.dedup(); v };
     let mut r = ctx.rng(71);
@@ -137,7 +151,8 @@ fn overflow(ev: &mut Ev, ctx: &Ctx) {
             let mut bad = vec![];
             for (qn, q) in [("max_utf8_buffer_length", &(|d: &Decoder, k: usize| d.max_utf8_buffer_length(k)) as &dyn Fn(&Decoder, usize) -> Option<usize>), ("max_utf8_buffer_length_without_replacement", &|d: &Decoder, k: usize| d.max_utf8_buffer_length_without_replacement(k)), ("max_utf16_buffer_length", &|d: &Decoder, k: usize| d.max_utf16_buffer_length(k))] {
                 let mut prev: Option<usize> = q(&d, 1 << 20);
-                for k in bigs.iter() { if let Some(v) = q(&d, *k) { if let Some(p) = prev { if v < p { bad.push(format!("{}({}) = {} is smaller than the value {} for a smaller length", qn, k, v, p)); } } prev = Some(v); } }
+                let ks = with_threshold(&bigs, &|k| q(&d, k));
+                for k in ks.iter() { if let Some(v) = q(&d, *k) { if let Some(p) = prev { if v < p { bad.push(format!("{}({}) = {} is smaller than the value {} for a smaller length", qn, k, v, p)); } } prev = Some(v); } }
             }
             bad
         }));
@@ -154,7 +169,8 @@ fn overflow(ev: &mut Ev, ctx: &Ctx) {
                 let mut e = enc.new_encoder(); let mut big = [0u8; 64]; let _ = e.encode_from_utf8(pre, &mut big, false);
                 for (qn, q) in [("max_buffer_length_from_utf8_without_replacement", &(|e: &Encoder, k: usize| e.max_buffer_length_from_utf8_without_replacement(k)) as &dyn Fn(&Encoder, usize) -> Option<usize>), ("max_buffer_length_from_utf16_without_replacement", &|e: &Encoder, k: usize| e.max_buffer_length_from_utf16_without_replacement(k)), ("max_buffer_length_from_utf8_if_no_unmappables", &|e: &Encoder, k: usize| e.max_buffer_length_from_utf8_if_no_unmappables(k)), ("max_buffer_length_from_utf16_if_no_unmappables", &|e: &Encoder, k: usize| e.max_buffer_length_from_utf16_if_no_unmappables(k))] {
                     let mut prev = q(&e, 1 << 20);
-                    for k in bigs.iter() { if let Some(v) = q(&e, *k) { if let Some(p) = prev { if v < p { bad.push(format!("{}({}) = {} is smaller than the value {} for a smaller length (encoder state after {:?})", qn, k, v, p, pre)); } } prev = Some(v); } }
+                    let ks = with_threshold(&bigs, &|k| q(&e, k));
+                    for k in ks.iter() { if let Some(v) = q(&e, *k) { if let Some(p) = prev { if v < p { bad.push(format!("{}({}) = {} is smaller than the value {} for a smaller length (encoder state after {:?})", qn, k, v, p, pre)); } } prev = Some(v); } }
                 }
             }
             bad
